@@ -61,10 +61,14 @@ type C14Payload struct {
 	AsDefaults bool `json:"as_defaults,omitempty"`
 	// PriorLines > 0: the same IniParser has read another document (that many
 	// comment lines, nothing else) before; line numbers start afresh with every document.
-	PriorLines int  `json:"prior_lines,omitempty"`
-	Stores     []Op `json:"stores,omitempty"`
-	IniOpts    uint `json:"ini_opts,omitempty"`
-	CrashAfter int  `json:"crash_after,omitempty"`
+	PriorLines int `json:"prior_lines,omitempty"`
+	// LateGroup: this top-level group is added (AddGroup) only after the same
+	// IniParser has read a first document that names its section; the judged read
+	// comes after that and sees the complete declaration.
+	LateGroup  string `json:"late_group,omitempty"`
+	Stores     []Op   `json:"stores,omitempty"`
+	IniOpts    uint   `json:"ini_opts,omitempty"`
+	CrashAfter int    `json:"crash_after,omitempty"`
 }
 
 type propC14 struct{}
@@ -615,6 +619,9 @@ func (propC14) Gen(r *Rng, idx int, tier string) *Scenario {
 	if cr.Chance(1, 6) && !p.LateIgnore {
 		p.PriorLines = cr.Range(1, 9)
 	}
+	if lr := r.Fork("lategroup"); lr.Chance(1, 6) && !p.LateIgnore && p.PriorLines == 0 && len(sc.Decl.Groups) > 0 {
+		p.LateGroup = sc.Decl.Groups[lr.Intn(len(sc.Decl.Groups))].Name
+	}
 	if cr.Chance(1, 3) && len(text) > 0 {
 		p.ErrAt = cr.Range(1, len(text))
 		p.ErrKind = cr.Pick([]string{"EIO", "EINTR", "UNEXPECTED_EOF", "EACCES"})
@@ -808,6 +815,12 @@ func c14Read(sc *Scenario, data string, chunks []simrt.ReadStep, rest int, viaFi
 	s2.Ops = []Op{op}
 	if sc.C14 != nil && sc.C14.PriorLines > 0 {
 		s2.Ops = []Op{{Kind: "iniread", Data: BStr(strings.Repeat("; an earlier document\n", sc.C14.PriorLines))}, op}
+	}
+	if sc.C14 != nil && sc.C14.LateGroup != "" && sc.C14.PriorLines == 0 && !sc.C14.LateIgnore {
+		d2 := *sc.Decl
+		d2.LateGroups = []string{sc.C14.LateGroup}
+		s2.Decl = &d2
+		s2.Ops = []Op{{Kind: "iniread", Data: BStr("[" + sc.C14.LateGroup + "]\nnot-yet = 1\n")}, {Kind: "addgroup"}, op}
 	}
 	if sc.C14 != nil && sc.C14.LateIgnore {
 		d2 := *sc.Decl
@@ -1175,6 +1188,13 @@ func (propC14) Reductions(sc *Scenario) []func(*Scenario) bool {
 		func(s *Scenario) bool { s.C14.LateIgnore = false; return true },
 		func(s *Scenario) bool { s.C14.AsDefaults = false; return true },
 		func(s *Scenario) bool { s.C14.PriorLines = 0; return true },
+		func(s *Scenario) bool {
+			if s.C14.LateGroup == "" {
+				return false
+			}
+			s.C14.LateGroup = ""
+			return true
+		},
 		func(s *Scenario) bool { s.C14.TailNoise = nil; return true },
 		func(s *Scenario) bool { s.C14.NoFinalEOL = false; return true },
 		func(s *Scenario) bool {
